@@ -45,14 +45,34 @@ class AmpLoop:
         self.node, self.idx, self.amps, self.start, self.pairs = node, idx, amps, start, pairs
 
 
+def _single_assignments(fnode):
+    seen = {}
+    for n in ast.walk(fnode):
+        if isinstance(n, ast.Assign) and len(n.targets) == 1 and isinstance(n.targets[0], ast.Name):
+            seen.setdefault(n.targets[0].id, []).append(n.value)
+    return {k: v[0] for k, v in seen.items() if len(v) == 1}
+
+
 def amp_loops(fi):
     out = []
+    single = _single_assignments(fi.node)
+
+    def resolve(e, depth=3):
+        if isinstance(e, ast.Name) and e.id in single and depth > 0:
+            return resolve(single[e.id], depth - 1)
+        if isinstance(e, ast.Call):
+            e2 = copy.copy(e)
+            e2.args = [resolve(a, depth) for a in e.args]
+            return e2
+        return e
+
     for n in ast.walk(fi.node):
         if not isinstance(n, ast.For):
             continue
-        if not any(isinstance(x, ast.Attribute) and U(x) == "self.amplitudes" for x in ast.walk(n.iter)):
+        it = resolve(n.iter)
+        if not any(isinstance(x, ast.Attribute) and U(x) == "self.amplitudes" for x in ast.walk(it)):
             continue
-        it, tgt = n.iter, n.target
+        tgt = n.target
         idx, start, inner_t = None, None, tgt
         if isinstance(it, ast.Call) and dotted(it.func) == "enumerate":
             start = ast.Constant(0)
@@ -64,6 +84,12 @@ def amp_loops(fi):
             if isinstance(tgt, ast.Tuple) and len(tgt.elts) == 2 and isinstance(tgt.elts[0], ast.Name):
                 idx, inner_t = tgt.elts[0].id, tgt.elts[1]
             it = it.args[0] if it.args else it
+        elif n.body and isinstance(n.body[0], ast.AugAssign) and isinstance(n.body[0].op, ast.Add) and isinstance(n.body[0].target, ast.Name) \
+                and isinstance(n.body[0].value, ast.Constant) and n.body[0].value.value == 1 and n.body[0].target.id in single \
+                and isinstance(single[n.body[0].target.id], ast.Constant) and isinstance(single[n.body[0].target.id].value, int):
+            # manual counter incremented at the top of the body: index of the current mode = initial value + 1
+            idx = n.body[0].target.id
+            start = ast.Constant(single[idx].value + 1)
         pairs = isinstance(it, ast.Call) and (dotted(it.func) or "").endswith("iterate_in_pairs")
         amps = [x.id for x in ast.walk(inner_t) if isinstance(x, ast.Name)]
         out.append(AmpLoop(n, idx, amps, start, pairs))
@@ -106,6 +132,8 @@ def check_accum(ctx: Ctx, fi):
                             if d.stmt is not None and id(d.stmt) in loop_nodes and not (n.stmt is not None and id(n.stmt) in loop_nodes):
                                 # is the use really after the loop (not before it)?
                                 if getattr(n.stmt, "lineno", 0) <= getattr(lp.node, "end_lineno", 0) and id(n.stmt) not in loop_nodes:
+                                    continue
+                                if nm.id == lp.idx:
                                     continue
                                 acc.add(nm.id)
                                 # initialised before the loop?
@@ -160,7 +188,7 @@ def series_dual(ctx, fi, lp: AmpLoop):
     # accumulators
     updates: dict = {}
     for s in ast.walk(lp.node):
-        if isinstance(s, ast.AugAssign) and isinstance(s.target, ast.Name) and isinstance(s.op, (ast.Add, ast.Sub)):
+        if isinstance(s, ast.AugAssign) and isinstance(s.target, ast.Name) and isinstance(s.op, (ast.Add, ast.Sub)) and s.target.id != lp.idx:
             updates.setdefault(s.target.id, []).append((1 if isinstance(s.op, ast.Add) else -1, s.value, s))
         elif isinstance(s, ast.Assign) and len(s.targets) == 1 and isinstance(s.targets[0], ast.Name) and id(s) in loop_nodes:
             nm = s.targets[0].id
@@ -681,7 +709,7 @@ def series_dual2(ctx, fi, lp):
     loop_nodes = {id(x) for s in lp.node.body for x in ast.walk(s)}
     env = {}
     for s in ast.walk(lp.node):
-        if isinstance(s, ast.AugAssign) and isinstance(s.target, ast.Name) and isinstance(s.op, (ast.Add, ast.Sub)):
+        if isinstance(s, ast.AugAssign) and isinstance(s.target, ast.Name) and isinstance(s.op, (ast.Add, ast.Sub)) and s.target.id != lp.idx:
             nm = s.target.id
             outside = [e for e in fv.defs_reaching(nm, fv.node_of(lp.node)) if e.stmt is None or id(e.stmt) not in loop_nodes]
             if len(outside) != 1:
@@ -724,6 +752,12 @@ def check_volume_3d(ctx: Ctx):
     def lim(n):
         if isinstance(n, ast.Lambda):
             n = n.body
+        elif isinstance(n, ast.Name):
+            loc = [g_ for g_ in m.all_functions() if g_.parent is fi and g_.name == n.id]
+            if loc:
+                r_ = [x for x in ast.walk(loc[0].node) if isinstance(x, ast.Return) and x.value is not None]
+                if len(r_) == 1:
+                    n = r_[0].value
         try:
             return conv.conv(n)
         except NotAlgebraic:
@@ -766,11 +800,20 @@ def check_pairs(ctx: Ctx):
     yields = [n for n in ast.walk(fi.node) if isinstance(n, ast.Yield)]
     fill_default = fi.default_of("fill")
     ok_fill = isinstance(fill_default, ast.Constant) and fill_default.value == 0 and not isinstance(fill_default.value, bool)
-    shapes = []
+    itn = None
+    for s_ in ast.walk(fi.node):
+        if isinstance(s_, ast.Assign) and isinstance(s_.targets[0], ast.Name) and U(s_.value) == f"iter({fi.params[0]})":
+            itn = s_.targets[0].id
+    firsts, seconds = set(), []
     for y in yields:
         if isinstance(y.value, ast.Tuple) and len(y.value.elts) == 2:
-            shapes.append(U(y.value.elts[1]))
-    ok = len(yields) == 2 and sorted(shapes) == sorted(["next(it)", "fill"]) and all(U(y.value.elts[0]) == "first" for y in yields)
+            firsts.add(U(y.value.elts[0]))
+            seconds.append(U(y.value.elts[1]))
+    head_ok = False
+    if len(firsts) == 1 and itn:
+        h = firsts.pop()
+        head_ok = any(isinstance(s_, ast.Assign) and U(s_.targets[0]) == h and U(s_.value) == f"next({itn})" for s_ in ast.walk(fi.node))
+    ok = len(yields) == 2 and itn is not None and sorted(seconds) == sorted([f"next({itn})", "fill"]) and head_ok
     ctx.decide(ok, "PAIRS", site, fi, "yields (first, next) and pads an odd tail with `fill`",
                f"pair iteration does not yield every element exactly once (yields: {[U(y.value) for y in yields]})")
     ctx.decide(ok_fill, "PAIRS", site + ":fill", fi, "missing partner amplitude defaults to 0",
